@@ -671,7 +671,7 @@ func Run(t *testing.T, plan *Plan, st *core.Stream, extra Extra, keepLog bool) (
 		res.PGClasses = w.pgClasses
 		res.HTTPSizes = w.httpSizes
 	}
-	res.NonTrivial = w.stats["commit_data"] > 0 && (w.stats["fault_total"] > 0 || w.stats["chain_events"] > 0 || len(w.pairs) > 1)
+	res.NonTrivial = w.stats["commit_data"] > 0 && (w.stats["fault_total"] > 0 || w.stats["chain_events"] > 0 || len(w.pairs) > 1 || plan.Checks["input_driven"])
 	return res
 }
 
